@@ -35,7 +35,7 @@ func init() {
 }
 
 const c15SDL = `scalar Any
-enum Kind { DOG CAT }
+enum Kind { DOG CAT Cat }
 input In { a: Int b: String = "bd" c: [In] k: Kind any: Any l: [Int] }
 directive @dir(n: Int, d: Int = 7, r: Int! = 9, s: String, o: In, l: [Int], k: Kind, any: Any, id: ID, fl: Float, b: Boolean) on FIELD
 type Query { f(n: Int, d: Int = 7, r: Int! = 9, s: String, o: In, l: [Int], k: Kind, any: Any, id: ID, fl: Float, b: Boolean): Int g: Int }
@@ -139,7 +139,7 @@ func (v c15Var) suppliedValue() any {
 	case "String":
 		return "sv"
 	case "Kind":
-		return "CAT"
+		return "Cat" // (an enum may declare names that differ by case only: the later one, exactly as supplied)
 	case "In":
 		return map[string]any{"a": 3}
 	case "[Int]":
